@@ -138,6 +138,10 @@ class CallMixin:
            'method:<result spec>'                -> uninterpreted function of receiver and arguments (pure, X-NP)
            'method!:<result spec>'               -> same, but the call is classified as MUTATING the receiver (C19 obligations)"""
         tag = base.x or 'any'
+        if tag == 'unknown':
+            # state the object model does not mention (a field added by a change): its attributes and the results of its methods are
+            # unknown values as well; nothing is known about what its methods do to the object itself
+            return SV('opq', self.ufunc('unknown_attr_' + name, OPQ, OPQ)(base.t), 'unknown')
         spec = self.opq_models().get(tag, {}).get(name)
         if spec is None:
             raise Unsupported(f'attribute {name} of opaque {tag}')
@@ -257,9 +261,28 @@ class CallMixin:
         from . import registry
         if name in registry.load().cache_ok:
             return False
-        reads_self = any(isinstance(n, ast.Attribute) and isinstance(n.value, ast.Name) and n.value.id == 'self' for n in ast.walk(getter))
-        if not reads_self:
-            return False            # computed from class constants only: always consistent
+        # instance state = names assigned through `self.<name> = ...` somewhere in the code; a getter that reads only class-level
+        # constants and methods (also through self) is always consistent with its cache
+        assigned = getattr(self.src, '_self_assigned', None)
+        if assigned is None:
+            assigned = set()
+            for ci in self.src.classes.values():
+                for m in ci.methods.values():
+                    for fn_ in m.values():
+                        if isinstance(fn_, ast.AST):
+                            for n in ast.walk(fn_):
+                                if isinstance(n, ast.Attribute) and isinstance(n.ctx, (ast.Store, ast.Del)) and isinstance(n.value, ast.Name) and n.value.id == 'self':
+                                    assigned.add(n.attr)
+            self.src._self_assigned = assigned
+        reads_state = False
+        for n in ast.walk(getter):
+            if isinstance(n, ast.Attribute) and isinstance(n.value, ast.Name) and n.value.id == 'self':
+                if n.attr in assigned or self.src.find_member(owner, n.attr) is None:
+                    reads_state = True
+            elif isinstance(n, ast.Name) and n.id == 'self' and not any(isinstance(p_, ast.Attribute) and p_.value is n for p_ in ast.walk(getter)):
+                reads_state = True      # self passed on as a whole
+        if not reads_state:
+            return False
         # a cache that the code invalidates somewhere needs an invariant the engine does not have: undecided, never an alarm
         for ci in self.src.classes.values():
             for m in ci.methods.values():
@@ -545,6 +568,8 @@ class CallMixin:
             raise Unsupported('calling super object')
         if fv.k == 'const' and isinstance(fv.t, B.ModuleRef):
             return self.call_external(fv.t.name, args, kw, node)
+        if fv.k == 'opq' and fv.x == 'unknown':
+            return SV('opq', self.sym('unknown_result', OPQ), 'unknown')
         if fv.k == 'obj':
             return self.call_method(fv, '__call__', args, kw, node)
         raise Unsupported(f'call of {fv}')
@@ -631,6 +656,19 @@ class CallMixin:
                 terms = [self.as_opq(f.bound)] if f.bound is not None and f.bound.k in ('obj', 'opq') else []
                 for a_ in list(args):
                     terms.append(self.as_opq(a_) if a_.k in ('obj', 'opq', 'none', 'list', 'dict', 'tuple') else self.opq_arg(a_))
+                for kwn in st.get('returns_uf_kw', []):
+                    # keyword arguments the result depends on: the value passed, else the default of the real signature
+                    if kwn in kw:
+                        a_ = kw[kwn]
+                    else:
+                        a_ = NONE
+                        if isinstance(fn, (ast.FunctionDef, ast.AsyncFunctionDef)):
+                            names_ = [x.arg for x in fn.args.posonlyargs + fn.args.args]
+                            defs_ = dict(zip(names_[::-1], fn.args.defaults[::-1]))
+                            defs_.update({x.arg: d_ for x, d_ in zip(fn.args.kwonlyargs, fn.args.kw_defaults) if d_ is not None})
+                            if kwn in defs_:
+                                a_ = self.ev(defs_[kwn])
+                    terms.append(self.as_opq(a_))
                 uf_ = self.ufunc(st['returns_uf'], *[t_.sort() for t_ in terms], OPQ)
                 r = SV('opq', uf_(*terms), st.get('returns_tag'))
             elif 'returns_expr_on_receiver' in st:
